@@ -244,6 +244,29 @@ func TestVerif_C14Wire(t *testing.T) {
 			}
 		}
 	}
+	// (a2) Offset varied jointly with Length (the bound on what is allocated is a function of Length alone): offsets
+	// that cancel the length (Offset = -Length, sums ≤ the piece length), extremes, and sums that overflow int32
+	for _, l := range append(lens, 2*c14PieceLen, 1<<16, 1<<31-1) {
+		offs := []int64{-int64(l), -int64(l) + 1, int64(c14PieceLen) - int64(l), -2147483648, -1, 1, c14PieceLen, 2147483647}
+		for _, o := range offs {
+			if o < -2147483648 || o > 2147483647 {
+				continue
+			}
+			if l > 1<<26 && o+int64(l) <= c14PieceLen {
+				continue // a check fooled by the offset would make the conn allocate this much: 64 MiB is enough to see it
+			}
+			m := &p2p.Message{Type: p2p.Message_PIECE_PAYLOAD, PiecePayload: &p2p.PiecePayloadMessage{Index: 1, Offset: int32(o), Length: l}}
+			b := c14Frame(m)
+			pays := []int{0}
+			if l > 0 && l <= 2*c14PieceLen {
+				pays = []int{0, int(l)}
+			}
+			for _, p := range pays {
+				run(len(b), b, p)
+				tr.Count("payload_offset_cases", 1)
+			}
+		}
+	}
 	// (b) the length prefix: 0, around the 32 KiB cap, huge; body shorter / longer than declared
 	for _, d := range []int{0, 1, 2, 32*1024 - 1, 32 * 1024, 32*1024 + 1, 1 << 24, 1<<31 - 1, 1 << 31, 1<<32 - 1} {
 		for _, n := range []int{0, 1, 40} {
@@ -267,6 +290,9 @@ func TestVerif_C14Wire(t *testing.T) {
 			if rnd.Chance(2, 3) {
 				m.PiecePayload = &p2p.PiecePayloadMessage{Index: int32(rnd.Uint64()), Offset: int32(rnd.Intn(3)) - 1,
 					Length: []int32{int32(rnd.Uint64()), int32(rnd.Intn(2 * c14PieceLen)), lens[rnd.Intn(len(lens))]}[rnd.Intn(3)]}
+				if l := m.PiecePayload.Length; rnd.Chance(1, 3) && l > 0 && l <= 1<<26 {
+					m.PiecePayload.Offset = -l + int32(rnd.Intn(3)) - 1 + int32(rnd.Intn(2))*c14PieceLen
+				}
 			}
 			if rnd.Chance(1, 3) {
 				m.PieceRequest = &p2p.PieceRequestMessage{Index: int32(rnd.Uint64()), Length: int32(rnd.Uint64())}
